@@ -18,5 +18,6 @@ INVARIANT TelemetryOrder
 INVARIANT NoSurvivorWeak
 INVARIANT StopCoversAllOk
 INVARIANT TelemetryCompleteFound
+INVARIANT TelemetryAsIs
 PROPERTY KillAfterGrace
 CHECK_DEADLOCK FALSE
